@@ -19,6 +19,7 @@ Definition ocall := ((Z * Z) * list oev)%type.
 Inductive case :=
 | WmC (late : Z) (ops : list wobs)
 | PipeC (nops : N) (ops : list pop) (streams : list (list sev))
+| LoopC (nops : N) (ops : list pop) (streams : list (list sev))
 | RunC (nops : N) (routed : list (N * N * pbts)) (streams : list (list sev))
 | RegC (ids : list N) (wm0 : Z) (ops : list robs)
 | OpC (ids : list N) (m : N) (ops : list oop) (calls : list (list ocall)).
@@ -133,8 +134,8 @@ Definition check_pipe (nops : N) (ops : list pop) (streams : list (list sev)) : 
 (* ---------- (e) a whole source runner reading a source to its end ----------
    Wall-clock ticker watermarks may or may not occur, so only schedule-independent facts are compared: the keyed
    events each operator receives (per-operator FIFO), that every broadcast watermark reaches every operator,
-   that every watermark is max(keyed timestamps sent before it, to any operator) - 1 ns, and that the
-   end-of-input watermark comes after every keyed event. *)
+   that every watermark is max(keyed timestamps sent before it, to any operator) - 1 ns, and that at
+   quiescence the latest watermark has caught up with everything forwarded. *)
 Definition keyed_of (st : list sev) : list sev := filter (fun e => match e with SK _ _ => true | _ => false end) st.
 Fixpoint after_last_sw (st : list sev) (acc : list sev) : list sev :=
   match st with
@@ -143,16 +144,48 @@ Fixpoint after_last_sw (st : list sev) (acc : list sev) : list sev :=
   | e :: r => after_last_sw r (acc ++ [e])
   end.
 
+(* "follows closely", at quiescence: every keyed event has been forwarded and the runner had its chance to
+   announce - the latest watermark an operator holds is max(forwarded) - 1 ns *)
+Fixpoint last_sw (st : list sev) (acc : option (Z * Z)) : option (Z * Z) :=
+  match st with
+  | [] => acc
+  | SW s :: r => last_sw r (Some s)
+  | _ :: r => last_sw r acc
+  end.
+Definition caught_up (all_ts : list Z) (streams : list (list sev)) : bool :=
+  match all_ts with
+  | [] => true
+  | _ => let expect := pb_new (zmax_list go_zero_time all_ts - 1) in
+         forallb (fun st => match last_sw st None with Some s => zz_eqb s expect | None => false end) streams
+  end.
+
 Definition check_run (nops : N) (routed : list (N * N * pbts)) (streams : list (list sev)) : list N :=
   let expect := map (fun j => flat_map (fun x => match x with (o, id, p) => if (o =? N.of_nat j)%N then [SK id p] else [] end) routed)
                     (seq 0 (N.to_nat nops)) in
   let nw := match streams with st :: _ => count_sw st | [] => O end in
-  flag (list_eqb (list_eqb sev_eqb) (map keyed_of streams) expect &&
-        forallb (fun st => match keyed_of (after_last_sw st []) with [] => true | _ => false end) streams) 2 ++
-  flag (forallb (fun st => Nat.eqb (count_sw st) nw) streams && Nat.eqb (length streams) (N.to_nat nops) && Nat.leb 1 nw) 15 ++
+  flag (list_eqb (list_eqb sev_eqb) (map keyed_of streams) expect) 2 ++
+  flag (forallb (fun st => Nat.eqb (count_sw st) nw) streams && Nat.eqb (length streams) (N.to_nat nops)) 15 ++
   flag (forallb (check_stamp streams) (seq 0 nw)) 14 ++
+  flag (caught_up (map (fun x => as_time (snd x)) routed) streams) 12 ++
   flag (forallb (check_below streams) (seq 0 nw)) 103 ++
   flag (forallb (fun st => nondecreasing (sw_instants st)) streams) 102.
+
+(* ---------- (f) the scripted event loop ----------
+   How many of the ticks the loop turns into watermark events is not the property's business (a runner may skip a
+   tick whose watermark would repeat the previous one); what is: the keyed events each operator receives, that a
+   watermark reaches every operator, the stamp rule for every delivered watermark, and - the history ends with a
+   tick after the last read - that the latest delivered watermark has caught up with everything forwarded. *)
+Fixpoint pop_routed (ops : list pop) : list (N * N * pbts) :=
+  match ops with
+  | [] => []
+  | PK evs :: r => evs ++ pop_routed r
+  | _ :: r => pop_routed r
+  end.
+
+Definition check_loop (nops : N) (ops : list pop) (streams : list (list sev)) : list N :=
+  let nw := match streams with st :: _ => count_sw st | [] => O end in
+  check_run nops (pop_routed ops) streams ++
+  flag (Nat.leb nw (count_pw ops)) 15.
 
 (* ---------- (b) TimerRegistry ---------- *)
 Definition rops_of (ops : list robs) : list rop :=
@@ -211,40 +244,92 @@ Fixpoint otie_insert (x : oev) (l : list oev) : list oev :=
   end.
 Definition onorm (l : list oev) : list oev := fold_right otie_insert [] l.
 
-Definition calls_agree (obs : list ocall) (mod_ : list call) : bool :=
-  list_eqb zz_eqb (map fst obs) (map c_told mod_) &&
-  list_eqb Nat.eqb (map (fun c => length (snd c)) obs) (map (fun c => length (c_events c)) mod_) &&
-  list_eqb oev_eqb (onorm (flat_map snd obs)) (onorm (flat_map (fun c => map oev_of (c_events c)) mod_)).
+(* WHEN a batch of events is handed to the handler is not the property's business (size trigger, delay trigger, a
+   flush at the end of a watermark that fired timers, ...).  The batch boundaries are therefore OBSERVED DATA: the
+   replay below adds events to the pending batch exactly as the code does (keyed event; due timers one by one) and
+   hands the pending batch to the handler model at the moments the implementation was observed to do so - i.e.
+   whenever the pending batch equals the next observed call of the incoming event being handled (the pending batch
+   only grows until it is flushed, so that moment is unique).  What IS compared: every observed call is a flush
+   of exactly the pending batch, in order, and is told the model's cached composite; nothing else is flushed. *)
+Definition evs_match (pending : list hevent) (obs : list oev) : bool := list_eqb oev_eqb (map oev_of pending) obs.
 
-(* A timer leaves the registry while a watermark message is handled, but with batches larger than one it may
-   reach the handler later (when the batch fills).  Specification at the handler: an expired timer is never
-   later than the composite watermark of some watermark message already handled (cmax = the largest such
-   composite so far; None = no watermark message yet, nothing may expire). *)
-Fixpoint check_op_ops (ids : list N) (i : nat) (cmax : option Z) (all : list oop) (ops : list oop) (obs : list (list ocall)) (model : list (list call)) : list N :=
-  match ops, obs, model with
-  | [], [], _ => []
-  | o :: r, oc :: obr, mc :: mr =>
+(* flush if the implementation did so here; result: state, remaining observed calls, told agrees, handler succeeded *)
+Definition try_flush (st : opst) (obs : list ocall) : opst * list ocall * bool * bool :=
+  match o_batch st, obs with
+  | _ :: _, oc :: rest =>
+      if evs_match (o_batch st) (snd oc) then
+        let '(st', calls, ok) := process_batch h_script st in
+        (st', rest, forallb (fun c => zz_eqb (c_told c) (fst oc)) calls, ok)
+      else (st, obs, true, true)
+  | _, _ => (st, obs, true, true)
+  end.
+
+Definition add_pending (st : opst) (e : hevent) : opst := {| o_reg := o_reg st; o_batch := o_batch st ++ [e] |}.
+
+(* the due-timer loop of handleWatermark with observed flush points; a failed handler call ends it *)
+Fixpoint fire_replay (c : Z) (fuel : nat) (st : opst) (obs : list ocall) (good : bool) : opst * list ocall * bool :=
+  match fuel with
+  | O => (st, obs, good)
+  | S fuel' =>
+      match r_timers (o_reg st) with
+      | (t, k) :: rest =>
+          if c <? t then
+            let '(st', obs', g, _) := try_flush st obs in (st', obs', good && g)   (* a flush at the end of the watermark *)
+          else
+            let r := o_reg st in
+            let st1 := add_pending {| o_reg := {| r_ups := r_ups r; r_wm := r_wm r; r_timers := rest |}; o_batch := o_batch st |} (HT k t) in
+            let '(st2, obs', g, ok) := try_flush st1 obs in
+            if ok then fire_replay c fuel' st2 obs' (good && g) else (st2, obs', good && g)
+      | [] => let '(st', obs', g, _) := try_flush st obs in (st', obs', good && g)
+      end
+  end.
+
+Definition op_replay_step (st : opst) (o : oop) (obs : list ocall) : opst * bool :=
+  let '(st0, obs0, g0, _) := try_flush st obs in          (* a flush before anything else (SourceComplete does that) *)
+  match o with
+  | OEv _ id key timers =>
+      let '(st1, obs1, g1, _) := try_flush (add_pending st0 (HK id key timers)) obs0 in
+      (st1, g0 && g1 && match obs1 with [] => true | _ => false end)
+  | OWm s p =>
+      let r1 := reg_note (o_reg st0) s p in
+      let '(st1, obs1, g1) := fire_replay (r_wm r1) (S (length (r_timers r1))) {| o_reg := r1; o_batch := o_batch st0 |} obs0 g0 in
+      (st1, g1 && match obs1 with [] => true | _ => false end)
+  | OComplete _ => (st0, g0 && match obs0 with [] => true | _ => false end)
+  | ODeploy ids' => ({| o_reg := reg_new ids'; o_batch := o_batch st0 |}, g0 && match obs0 with [] => true | _ => false end)
+  end.
+
+(* A timer leaves the registry while a watermark message is handled, but it may reach the handler later (when
+   its batch is flushed).  Specification at the handler: an expired timer is never later than the composite
+   watermark of some watermark message already handled (cmax = the largest such composite so far; None = no
+   watermark message yet, nothing may expire). *)
+Fixpoint check_op_ops (ids : list N) (i : nat) (cmax : option Z) (all : list oop) (ops : list oop) (obs : list (list ocall)) (st : opst) : list N :=
+  match ops, obs with
+  | [], [] => []
+  | o :: r, oc :: obr =>
       let c := spec_at ids (firstn (S i) all) in
       let cmax' := match o with
                    | OWm _ _ => Some (match cmax with Some x => Z.max x c | None => c end)
                    | _ => cmax
                    end in
-      flag (calls_agree oc mc) 7 ++
+      let '(st', good) := op_replay_step st o oc in
+      flag good 7 ++
       flag (forallb (fun cl => zz_eqb (fst cl) (pb_new c)) oc) 19 ++
       flag (forallb (fun cl => forallb (fun e => match e with
                                                   | ET _ t => match cmax' with Some x => t <=? x | None => false end
                                                   | EK _ => true end) (snd cl)) oc) 100 ++
-      check_op_ops ids (S i) cmax' all r obr mr
-  | _, _, _ => [8%N]
+      check_op_ops ids (S i) cmax' all r obr st'
+  | _, _ => [8%N]
   end.
 
+(* m (the configured batch size) is part of the case but no longer of the comparison *)
 Definition check_op (ids : list N) (m : N) (ops : list oop) (calls : list (list ocall)) : list N :=
-  check_op_ops ids 0 None ops ops calls (op_trace h_script (N.to_nat m) (op_new ids) ops).
+  check_op_ops ids 0 None ops ops calls (op_new ids).
 
 Definition check_case (c : case) : list N :=
   match c with
   | WmC late ops => check_wm late ops
   | PipeC nops ops streams => check_pipe nops ops streams
+  | LoopC nops ops streams => check_loop nops ops streams
   | RunC nops routed streams => check_run nops routed streams
   | RegC ids wm0 ops => check_reg ids wm0 ops
   | OpC ids m ops calls => check_op ids m ops calls
